@@ -204,3 +204,64 @@ func fvssReplay(args []string) int {
 	o.Close()
 	return 0
 }
+
+func init() { commands["api-replay"] = apiReplay }
+
+// api-replay: call sequences enumerated by TLC on specs/dkg/DKGApi.tla -> real DKG instances
+func apiReplay(args []string) int {
+	fs := flag.NewFlagSet("api-replay", flag.ExitOnError)
+	in := fs.String("in", "", "")
+	out := fs.String("out", "", "")
+	fs.Parse(args)
+	f, err := os.Open(*in)
+	if err != nil {
+		fmt.Fprintln(os.Stderr, err)
+		return 2
+	}
+	defer f.Close()
+	var cases []dkgsim.APICase
+	sc := bufio.NewScanner(f)
+	sc.Buffer(make([]byte, 1<<20), 1<<26)
+	for sc.Scan() {
+		var c dkgsim.APICase
+		if err := json.Unmarshal(sc.Bytes(), &c); err != nil {
+			fmt.Fprintln(os.Stderr, "bad case:", err)
+			return 2
+		}
+		cases = append(cases, c)
+	}
+	results := make([]dkgsim.APIResult, len(cases))
+	jobs := make(chan int)
+	var wg sync.WaitGroup
+	for w := 0; w < runtime.NumCPU(); w++ {
+		wg.Add(1)
+		go func() {
+			defer wg.Done()
+			for i := range jobs {
+				results[i] = dkgsim.RunAPI(cases[i])
+			}
+		}()
+	}
+	for i := range cases {
+		jobs <- i
+	}
+	close(jobs)
+	wg.Wait()
+	o, err := os.Create(*out)
+	if err != nil {
+		fmt.Fprintln(os.Stderr, err)
+		return 2
+	}
+	w := bufio.NewWriter(o)
+	enc := json.NewEncoder(w)
+	for _, r := range results {
+		// keep the output small: the case is only echoed when something is to be reported
+		if len(r.Violations) == 0 && len(r.Notes) == 0 {
+			r.Case = dkgsim.APICase{ID: r.Case.ID, Proto: r.Case.Proto, Me: r.Case.Me}
+		}
+		enc.Encode(r)
+	}
+	w.Flush()
+	o.Close()
+	return 0
+}
